@@ -22,6 +22,8 @@ def run(tier, seed):
         if tier != "quick":
             runs += [dict(W=1, pp=1, susp=1, execs=6, ops=30, perturb=2)]
     drive(v, PROP, seed, runs, tier)
+    if tier != "quick":
+        asan_lanes(v, PROP, seed)
     return v.finish()
 
 def retarget_window(v, tier, seed):
